@@ -119,3 +119,16 @@ def _env_json(pt):
 
 def output_matches(r, exp):
     return dom_to_spec(r.output) == exp["out"]
+
+
+def compare_ground(g, exp):
+    """g: {"ins": [[name, dom]], "out": dom, "data": floats} recorded from a Tensor/Number;
+    exp: projection computed by TLC.  -> (status, clause, detail)"""
+    from funsor.tensor import Tensor as T
+    from collections import OrderedDict as OD
+    if not exp.get("defined", True):
+        return ("skipped_undefined", None, None)
+    sizes = [d["dt"] for _, d in g["ins"]]
+    arr = np.array(g["data"], dtype=np.float64).reshape(tuple(sizes) + tuple(g["out"]["sh"]))
+    r = T(arr, OD((n, dom_of(d)) for n, d in g["ins"]))
+    return compare_values(r, exp)
